@@ -42,8 +42,13 @@ func fixed() History {
 // generator) with real git under base and compares simulation and format emulator with
 // it. A non-nil error is a harness defect and must end the run as inconclusive.
 func SelfTest(base string, n int) error {
+	return SelfTestWith(base, n, AllFeatures)
+}
+
+// SelfTestWith is SelfTest with the drawn histories taken from the generator under options o.
+func SelfTestWith(base string, n int, o Options) error {
 	hs := []History{fixed()}
-	g := rapid.Custom(func(t *rapid.T) History { return Gen(t, AllFeatures) })
+	g := rapid.Custom(func(t *rapid.T) History { return Gen(t, o) })
 	for i := 1; i <= n; i++ {
 		hs = append(hs, g.Example(i))
 	}
